@@ -91,12 +91,23 @@ impl Scenario for HybridScenario {
             let hot = r.below(256) as u32;
             let mut reports: Vec<Report> = Vec::new();
             let mut key = 1u64 + (r.next_u64() >> 40);
-            for _ in 0..r.range(65, 90) {
+            // one run in three instead feeds exactly 256 (rarely 512) reports: the row count of the conversion/PRF stage is then an
+            // exact multiple of the 256-row conversion chunk
+            let exact = r.chance(1, 3);
+            if exact {
+                let total = if r.chance(1, 5) { 512 } else { 256 };
+                while reports.len() < total {
+                    key += 1 + r.below(5) as u64;
+                    reports.push((false, key, r.below(256) as u32));
+                    reports.push((true, key, r.below(8) as u32));
+                }
+            }
+            for _ in 0..(if exact { 0 } else { r.range(65, 90) }) {
                 key += 1 + r.below(5) as u64;
                 reports.push((false, key, hot));
                 reports.push((true, key, r.below(8) as u32));
             }
-            for _ in 0..r.range(0, 6) {
+            for _ in 0..(if exact { 0 } else { r.range(0, 6) }) {
                 key += 1 + r.below(5) as u64;
                 reports.push((false, key, r.below(256) as u32));
                 reports.push((true, key, r.below(8) as u32));
@@ -479,6 +490,7 @@ fn judge(p: &Value, shards: usize, buckets: usize, reports: &[Report], assign: &
             for (_k, rs) in by_key { if rs.len() == 2 { *c.entry(rs.iter().map(|x| if x.0 { 0 } else { x.2 as usize }).sum::<usize>() % 256).or_insert(0usize) += 1; } }
             c.values().copied().max().unwrap_or(0) };
         res.probe("third_aggregation_layer", u64::from(pu(p, "shards") == 1 && fullest > 64));
+        res.probe("rows_exact_multiple_of_conversion_chunk", u64::from(pu(p, "shards") == 1 && n > 0 && n % 256 == 0 && ps(p, "padding") == "none"));
         return res;
     }
     // ---------- tampered runs: the honest run's inventory serves `replays` same-seed replays, each with its own site(s) ----------
